@@ -231,7 +231,7 @@ def gen_cases(ck, tier, run_one):
                         for exc, soft in EXCS:
                             cases.append(mk(drv, stack, [spec], [{kind: k, "exc": exc, "soft": soft}], push=push))
     # (3) sequences of 2-3 calls with 0-2 faults anywhere
-    nseq = 2500 if tier == "quick" else 20000
+    nseq = 2500 if tier == "quick" else 60000
     bases = [(30, 7), (30, 7), (30, 7), (0, 0), (30, 0), (0.5, 7.5), (10, 10)]
     for _ in range(nseq):
         drv = rng.choice(["generic", "iosxe", "iosxe", "network"])
@@ -338,7 +338,10 @@ def evaluate(ck, case, steps, consts, mline=None, count=True):
                       "session-push" if case.get("push") else "no-session", "timer" if case.get("timer") else "scripted"))
     if mline is not None:
         real = enc_real(steps)
-        artefact = any(st["res"] != "-" and not (st["log"] and st["log"][-1]["exc"]) and st["res"] == "t" for st in steps)
+        # a REAL timer of the decorators expired during a scripted case (only under extreme machine load): the call ends in
+        # ScrapliTimeout although no call site raised one (SIGALRM between two sites / asyncio cancellation converted by
+        # timeout_wrapper).  The oracle above still applies; the trace is not compared.
+        artefact = any(st["res"] == "t" and not (st["log"] and st["log"][-1]["exc"] == "t") for st in steps)
         if real == mline:
             ck.traces_validated += 1
         elif artefact:
